@@ -13,6 +13,13 @@ import warnings
 
 import numpy as np
 
+try:  # the tensors are tiny: intra-op threading only adds contention on a shared machine
+    import torch as _torch
+
+    _torch.set_num_threads(1)
+except Exception:  # noqa: BLE001
+    pass
+
 FILTERS = ("ramp", "shepp-logan", "cosine", "hamming", "hann", None)
 WINDOWED = ("shepp-logan", "hamming", "hann")
 
@@ -366,6 +373,9 @@ from pyvc.lib import c07_models as M7  # noqa: E402
 from pyvc.lib.c07_models import Tensor, fresh_tensor  # noqa: E402
 from .common import registry, forall, implies, AND, OR, NOT  # noqa: E402
 
+# evidence strings of very large terms: keep z3's (pure Python) pretty printer from walking them completely
+z3.set_option(max_visited=250, max_lines=12, max_depth=10, max_args=12)
+
 LEVEL = "other"
 RAD = "quantem.tomography.radon.radon"
 I = z3.Int
@@ -505,6 +515,13 @@ def ir_setup(ctx):
     s.filter_name = "ramp" if ctx.branch(ctx.fresh("filter_is_ramp", "bool").t) else "bogus-name"
     s.circle = bool(ctx.branch(ctx.fresh("circle", "bool").t))
     s.device = None
+    # explored configurations (each with both parities of N unless stated):
+    #   explicit theta x circle in {True, False} x ramp | default theta x circle=True x ramp | odd N, explicit theta, circle=True, unknown filter name
+    ok = (s.filter_name == "ramp" and (not s.theta_none or s.circle)) or (s.filter_name != "ramp" and s.odd and not s.theta_none and s.circle)
+    if not ok:
+        from pyvc.interp import PathEnd
+
+        raise PathEnd("configuration not explored")
     return s
 
 
@@ -691,14 +708,18 @@ def ir_ensures(s):
 
 
 def ir_conc(ev):
-    m, A, B = ev("m"), ev("A"), ev("B")
-    if m is None or A is None or B is None:
-        return None
-    N = 2 * m + (1 if ev("N_is_odd", False) else 0)
-    if not (2 <= N <= 40 and 1 <= A <= 12 and 1 <= B <= 3):
-        return None
+    """Counter-models of these obligations are usually huge (N ~ 2^23) or involve uninterpreted cos/sin: replay a small input of the
+    same class (parity of N, default/explicit theta, circle flag, filter)."""
+    m, A, B, N = ev("m"), ev("A"), ev("B"), ev("N")
+    odd = bool(ev("N_is_odd", True)) if N is None else bool(N % 2)
+    N = N if N is not None else (None if m is None else 2 * m + (1 if odd else 0))
+    if N is None or not 2 <= N <= 33:
+        N = 9 if odd else 8
+    A = A if (A is not None and 2 <= A <= 8) else 4
+    B = B if (B is not None and 1 <= B <= 3) else 2
     th = None if ev("theta_is_None", False) else [round(7.0 + 173.0 * i / A, 3) for i in range(A)]
-    return dict(N=N, A=A, B=B, theta=th, filter_name="ramp" if ev("filter_is_ramp", True) else "bogus-name", circle=bool(ev("circle", True)), kind="random")
+    return dict(N=N, A=A, B=B, theta=th, filter_name="ramp" if ev("filter_is_ramp", True) else "bogus-name", circle=bool(ev("circle", True)),
+                kinds=["random", "delta", "smooth"])
 
 
 def fam_iradon_ok():
@@ -875,9 +896,9 @@ def rd_setup2(ctx):
 
 
 def rd_conc(ev):
-    m, T, B = ev("m"), ev("T"), ev("B")
-    odd = bool(ev("N_is_odd", True))
-    N = None if m is None else 2 * m + (1 if odd else 0)
+    m, T, B, N = ev("m"), ev("T"), ev("B"), ev("N")
+    odd = bool(ev("N_is_odd", True)) if N is None else bool(N % 2)
+    N = N if N is not None else (None if m is None else 2 * m + (1 if odd else 0))
     if N is None or not 2 <= N <= 33:
         N = 9 if odd else 8
     T = T if (T is not None and 1 <= T <= 6) else 3
@@ -898,8 +919,294 @@ C_RADON = Contract(
 )
 
 CONTRACTS = [C_FILTER, C_IRADON, C_RADON]
-LEMMAS = []
-BOUNDED = []
-TRUSTED = []
-ASSUMPTIONS = []
-EXPLANATION = ""
+
+# ======================================================================================================================
+# property-level lemmas (proved from the contract statements alone)
+# ======================================================================================================================
+
+
+def lemma_zero_degree(ctx):
+    """At 0 degrees the reference sample point of (row r, column j) is the pixel (r, j) itself and the bilinear sample returns that
+    pixel of the disc-masked image: the contract's sum over r is the masked column sum (Sigma-congruence)."""
+    img = z3.Function("img", z3.IntSort(), z3.IntSort(), z3.IntSort(), z3.RealSort())
+    images = NS(fn=lambda b, r, c: Sym(img(b, r, c)))
+    N, b, r, j = I("N"), I("b"), I("r"), I("j")
+    th = R("theta_deg")
+    xs, ys = sk_point(N, th, r, j)
+    pix = masked_pixel(images, N)
+    ang = th * V.PI / 180
+    Cc, Ss = R("cos!gen"), R("sin!gen")
+    gen = [(reals.F["cos"](ang), Cc), (reals.F["sin"](ang), Ss)]
+    hyps = [N >= 2, r >= 0, r < N, j >= 0, j < N, Cc == 1, Ss == 0]    # theta = 0: cos = 1, sin = 0 (A4: cos 0 = 1, sin 0 = 0)
+    sub = lambda t: z3.substitute(t, *gen)  # noqa: E731
+    val = lift(M7.bilinear_zero(lambda rr, cc: pix(b, rr, cc), N, N, xs, ys))
+    return [("sample-point-is-the-pixel-itself", hyps, sub(AND(xs == z3.ToReal(j), ys == z3.ToReal(r)))),
+            ("summand-is-the-masked-pixel", hyps, sub(val == pix(b, r, j)))]
+
+
+def lemma_linear(ctx):
+    """Both contract statements are linear in the data: every summand is (data-independent weights) x (data)."""
+    u_, v_ = (z3.Function(n, z3.IntSort(), z3.IntSort(), z3.IntSort(), z3.RealSort()) for n in ("U", "V"))
+    al, be = R("alpha"), R("beta")
+    N, b, x, y, r, c = I("N"), I("b"), R("x"), R("y"), I("r"), I("c")
+    mk = lambda f: NS(fn=f)  # noqa: E731
+    pu, pv = masked_pixel(mk(lambda b_, r_, c_: Sym(u_(b_, r_, c_))), N), masked_pixel(mk(lambda b_, r_, c_: Sym(v_(b_, r_, c_))), N)
+    pw = masked_pixel(mk(lambda b_, r_, c_: Sym(al * u_(b_, r_, c_) + be * v_(b_, r_, c_))), N)
+    read = lambda p, r_, c_: M7.guarded_pixel(lambda r2, c2: p(b, r2, c2), N, N, r_, c_)  # noqa: E731
+    # (1) one zero-padded read of the masked image is linear (u, v generalised to constants)
+    g1 = z3.substitute(read(pw, r, c) == al * read(pu, r, c) + be * read(pv, r, c), (u_(b, r, c), R("u0")), (v_(b, r, c), R("v0")))
+    # (2) the bilinear combination of four reads is linear in the reads (reads and the fractional parts generalised: polynomial identity)
+    y0, x0 = z3.ToInt(y), z3.ToInt(x)
+    corners = [(y0, x0), (y0, x0 + 1), (y0 + 1, x0), (y0 + 1, x0 + 1)]
+    bil = lambda p: lift(M7.bilinear_zero(lambda rr, cc: p(b, rr, cc), N, N, x, y))  # noqa: E731
+    gen, hyps = [(x - z3.ToReal(x0), R("wx")), (y - z3.ToReal(y0), R("wy"))], []
+    for q, (rr, cc) in enumerate(corners):
+        gen += [(read(pw, rr, cc), R(f"gw{q}")), (read(pu, rr, cc), R(f"gu{q}")), (read(pv, rr, cc), R(f"gv{q}"))]
+        hyps.append(R(f"gw{q}") == al * R(f"gu{q}") + be * R(f"gv{q}"))      # instance of (1) at corner q
+    g2 = z3.substitute(bil(pw) == al * bil(pu) + be * bil(pv), *gen)
+    F1, F2 = (z3.Function(n, z3.IntSort(), z3.RealSort()) for n in ("F1", "F2"))
+    u = R("u")
+    k0 = z3.ToInt(u)
+    gen2 = [(F1(k0), R("f10")), (F1(k0 + 1), R("f11")), (F2(k0), R("f20")), (F2(k0 + 1), R("f21")), (u - z3.ToReal(k0), R("w"))]
+    ir_goal = z3.substitute(lin_interp(lambda n: al * F1(n) + be * F2(n), u) == al * lin_interp(F1, u) + be * lin_interp(F2, u), *gen2)
+    return [("zero-padded-read-of-the-masked-image-is-linear-in-the-image", [N >= 2], g1),
+            ("radon-summand(bilinear-sample)-is-linear-in-the-reads", hyps, g2),
+            ("iradon-term-linear-in-the-filtered-projection(filtering-itself-linear-by-A5)", [], ir_goal)]
+
+
+def _apps_of(t, decl):
+    out, seen, stack = [], set(), [t]
+    while stack:
+        e = stack.pop()
+        if e.get_id() in seen:
+            continue
+        seen.add(e.get_id())
+        if z3.is_quantifier(e):
+            stack.append(e.body())
+            continue
+        if z3.is_app(e):
+            if e.decl().eq(decl):
+                out.append(e)
+            stack.extend(e.children())
+    return out
+
+
+def lemma_batch(ctx):
+    """Batched == per-image, read off the contract statements: entry b of the result mentions the data only at batch index b
+    (dependence typing of the statement: every application of the data symbol has first argument b)."""
+    img = z3.Function("img", z3.IntSort(), z3.IntSort(), z3.IntSort(), z3.RealSort())
+    flt = z3.Function("filtered", z3.IntSort(), z3.IntSort(), z3.IntSort(), z3.RealSort())
+    N, b, j, r, a = I("N"), I("b"), I("j"), I("r"), I("a")
+    th = R("theta_deg")
+    xs, ys = sk_point(N, th, r, j)
+    pix = masked_pixel(NS(fn=lambda b_, r_, c_: Sym(img(b_, r_, c_))), N)
+    t1 = lift(M7.bilinear_zero(lambda rr, cc: pix(b, rr, cc), N, N, xs, ys))
+    t2 = lin_interp(lambda n: flt(b, a, n), R("u"))
+    ok1 = all(e.arg(0).eq(b) for e in _apps_of(t1, img)) and len(_apps_of(t1, img)) == 4
+    ok2 = all(e.arg(0).eq(b) and e.arg(1).eq(a) for e in _apps_of(t2, flt)) and len(_apps_of(t2, flt)) == 2
+    return [("radon-entry-b-reads-only-image-b", [], z3.BoolVal(ok1)),
+            ("iradon-entry-b-reads-only-filtered-projection-(b,a)(row-wise-FFT-along-the-detector-axis-by-the-pipeline-obligation)", [], z3.BoolVal(ok2))]
+
+
+def lemma_padded_size(ctx):
+    """iradon_torch pads N -> max(64, nextpow2(2N)) (proved above).  scikit-image's iradon in circle mode FIRST pads the sinogram to
+    the diagonal D = ceil(sqrt(2) N) and then uses max(64, nextpow2(2D)); the windowed filters (shepp-logan, cosine, hamming, hann)
+    are sampled on that size, so the two filters coincide only if the sizes do.  (ramp / None are size-independent once P >= 2N.)"""
+    N, D = I("N"), I("D")
+    mx = lambda p, q: z3.If(p >= q, p, q)  # noqa: E731
+    P1 = mx(64, M7.next_pow2(2 * N))
+    P2 = mx(64, M7.next_pow2(2 * D))
+    hyps = [N >= 2, N <= 2 ** 20, D >= 0, (D - 1) * (D - 1) < 2 * N * N, 2 * N * N <= D * D]
+    return [("torch-padded-size=skimage-padded-size-in-circle-mode", hyps, P1 == P2),
+            ("sizes-agree-for-N<=22-and-33<=N<=45", hyps + [OR(N <= 22, AND(N >= 33, N <= 45))], P1 == P2),
+            ("torch-padded-size=skimage-padded-size-for-circle=False(same-argument)", [N >= 2, N <= 2 ** 20], P1 == mx(64, M7.next_pow2(2 * N)))]
+
+
+LEMMAS = [
+    Lemma("0-degree-projection=masked-column-sums", lemma_zero_degree, uses=["radon_torch"]),
+    Lemma("linearity", lemma_linear, uses=["radon_torch", "iradon_torch"]),
+    Lemma("batched=per-image", lemma_batch, uses=["radon_torch", "iradon_torch"]),
+    Lemma("padded-size-vs-skimage", lemma_padded_size, uses=["iradon_torch"]),
+]
+
+# ======================================================================================================================
+# bounded stand-ins: the DECIDING part of C07 (agreement with another implementation can only be evaluated at run time)
+# ======================================================================================================================
+GRID = [7.5 * q for q in range(25)]      # 0, 7.5, ..., 180
+KINDS = ("random", "smooth", "delta")
+OBLIQUE = ([0.0, 30.0, 77.0, 120.0, 160.0], [3.0, 41.5, 90.0, 133.3, 179.0], [12.25, 45.0, 60.0, 101.0, 180.0])
+
+
+def _sub(rng, k, lo=0.0, hi=180.0):
+    return sorted(round(float(v), 3) for v in rng.uniform(lo, hi, size=k))
+
+
+def fam_radon(tier="quick", seed=0):
+    rng = np.random.default_rng(seed + 7)
+    for N in range(3, 34):
+        th = sorted(set([0.0, 180.0] + [GRID[(N * 5 + 3 * q) % 25] for q in range(5)]))
+        yield dict(N=N, B=1 + N % 3, theta=th, kinds=[KINDS[(N + q) % 3] for q in range(3)], premask=bool(N % 2 == 0 or N % 5 == 0), seed=seed)
+    for N in (5, 8, 16, 17):
+        yield dict(N=N, B=1, theta=GRID, kind="random", seed=seed + 1)
+    for N in (6, 11, 33):
+        yield dict(N=N, B=2, theta=_sub(rng, 4), kinds=["smooth", "random"], two_d=False, seed=seed + 2)
+    yield dict(N=7, B=1, theta=None, kind="random", seed=seed)          # default theta = arange(180)
+    yield dict(N=9, B=1, theta=[33.0], kind="delta", two_d=True, seed=seed)
+    if tier == "thorough":
+        for N in range(3, 34):
+            for kind in KINDS:
+                yield dict(N=N, B=1, theta=GRID, kind=kind, seed=seed + 3)
+            for q in range(3):
+                yield dict(N=N, B=3, theta=_sub(rng, 1 + (N + q) % 6), kinds=list(KINDS), seed=seed + 4 + q)
+        for N in (41, 48, 64, 65):
+            yield dict(N=N, B=1, theta=_sub(rng, 5), kind="random", seed=seed)
+
+
+def klass_radon(inp, res):
+    return "even N" if inp["N"] % 2 == 0 else "odd N"
+
+
+def fam_zero(tier="quick", seed=0):
+    for N in range(3, 34):
+        yield dict(N=N, B=2, kinds=[KINDS[N % 3], "delta"], premask=bool(N % 3 == 0), seed=seed)
+
+
+def fam_filter(tier="quick", seed=0):
+    sizes = list(range(2, 22, 2)) + [32, 64, 128, 256, 512] + ([1024, 2048, 30, 66, 100] if tier == "thorough" else [])
+    for size in sizes:
+        for nm in FILTERS:
+            yield dict(size=size, filter_name=nm)
+    for size in (3, 7, 65):
+        yield dict(size=size, filter_name="ramp")
+    yield dict(size=64, filter_name="bogus-name")
+    yield dict(size=64, filter_name="Ramp")
+
+
+def klass_filter(inp, res):
+    return "cosine filter" if inp.get("filter_name") == "cosine" and inp["size"] % 2 == 0 else f"filter {inp.get('filter_name')}"
+
+
+def fam_iradon(tier="quick", seed=0):
+    rng = np.random.default_rng(seed + 11)
+    big = (45, 47, 63, 65)
+    for N in list(range(3, 34)) + list(big):
+        for q, nm in enumerate(FILTERS):
+            if N in big and nm in ("ramp", None) and N != 45:
+                continue
+            th = OBLIQUE[(N + q) % 3]
+            yield dict(N=N, A=len(th), B=1 + (N + q) % 3, theta=th, filter_name=nm, circle=True, kinds=[KINDS[(N + q + z) % 3] for z in range(3)], seed=seed)
+    for N in (3, 5, 8, 9, 16, 21, 33):
+        yield dict(N=N, A=6, B=1, theta=None, filter_name="ramp", circle=True, kind="random", seed=seed)       # default theta
+        yield dict(N=N, A=1, B=1, theta=None, filter_name="ramp", circle=True, kind="random", seed=seed)       # one projection: default theta = [0] in both
+    for N in range(3, 34, 2):
+        yield dict(N=N, A=5, B=1, theta=OBLIQUE[N % 3], filter_name="ramp", circle=False, kind="random", seed=seed)
+    for N in (5, 9, 12):
+        yield dict(N=N, A=3, B=1, theta=[10.0, 20.0], filter_name="ramp", circle=True, kind="random")              # theta mismatch -> ValueError
+        yield dict(N=N, A=4, B=1, theta=_sub(rng, 4), filter_name="hann", circle=True, kind="smooth", two_d=True)
+    if tier == "thorough":
+        for N in range(3, 34):
+            for nm in FILTERS:
+                for q in range(2):
+                    A = 1 + (N + q) % 7
+                    yield dict(N=N, A=A, B=2, theta=_sub(rng, A), filter_name=nm, circle=True, kinds=["random", "delta"], seed=seed + q)
+        for N in (64, 91, 92, 128):
+            for nm in FILTERS:
+                yield dict(N=N, A=4, B=1, theta=_sub(rng, 4), filter_name=nm, circle=True, kind="random", seed=seed)
+
+
+def _detector_out_of_range(inp):
+    """circle=False: does some output pixel have a detector coordinate outside [0, N-1] at some angle? (scikit-image returns 0 there)"""
+    N = inp["N"]
+    M = int(math.floor(math.sqrt(N * N / 2.0)))
+    rad = M // 2
+    c = np.arange(M) - rad
+    X, Y = np.meshgrid(c, c)
+    for th in inp["theta"]:
+        a = math.radians(th)
+        t = X * math.cos(a) - Y * math.sin(a) + N // 2
+        if t.min() < -1e-9 or t.max() > N - 1 + 1e-9:
+            return True
+    return False
+
+
+def klass_iradon(inp, res):
+    N, nm = inp["N"], inp.get("filter_name", "ramp")
+    circle = bool(inp.get("circle", True))
+    if N % 2 == 0:
+        return "even N"
+    if inp.get("theta") is None and inp["A"] > 1:
+        return "default theta"
+    if inp.get("theta") is not None and len(inp["theta"]) != inp["A"]:
+        return "theta mismatch must raise ValueError"
+    if nm == "cosine":
+        return "cosine filter"
+    if nm in WINDOWED and circle and torch_padded_size(N) != skimage_padded_size(N, True):
+        return "windowed filter, padded size differs from skimage (circle mode)"
+    if not circle and _detector_out_of_range(inp):
+        return "circle=False, detector coordinate outside [0,N-1]"
+    return f"odd N, filter {nm}, circle={circle}"
+
+
+def fam_batched(tier="quick", seed=0):
+    for which in ("radon", "iradon"):
+        for N in (3, 4, 5, 8, 9, 16, 17, 32, 33) + ((6, 7, 12, 25, 31) if tier == "thorough" else ()):
+            yield dict(which=which, N=N, B=3, A=4, theta=OBLIQUE[N % 3][:4], kinds=list(KINDS), filter_name=FILTERS[N % 6], seed=seed)
+            yield dict(which=which, N=N, B=2, A=2, theta=[0.0, 90.0], kinds=["delta", "random"], filter_name="ramp", circle=bool(N % 2), seed=seed)
+
+
+def fam_linear(tier="quick", seed=0):
+    for which in ("radon", "iradon"):
+        for N in (3, 4, 5, 8, 9, 16, 17, 32, 33) + ((6, 7, 12, 25, 31) if tier == "thorough" else ()):
+            yield dict(which=which, N=N, A=4, theta=OBLIQUE[(N + 1) % 3][:4], filter_name=FILTERS[(N + 2) % 6], alpha=1.5, beta=-0.75, seed=seed)
+            yield dict(which=which, N=N, A=3, theta=[0.0, 45.0, 180.0], filter_name="ramp", alpha=-2.0, beta=0.5, circle=bool(N % 2), seed=seed + 1)
+
+
+def fam_conformance(tier="quick", seed=0):
+    for N in (3, 4, 8, 9, 32, 33):
+        for th in (0.0, 33.0, 90.0, 135.0, 180.0):
+            yield dict(N=N, theta=th)
+
+
+def rt_models(inp):
+    """Conformance of the TRUSTED library models (pyvc/lib/c07_models.py) with the real libraries on small concrete inputs."""
+    bad = [f"{n}: {d}" for n, v, d in M7.conformance_cases() if v]
+    return _report(bad, "model formulas == torch / numpy / scipy on small inputs")
+
+
+BOUNDED = [
+    Bounded.from_rt("radon_torch == skimage.radon (circle)", rt_radon, fam_radon,
+                    "N=3..33 (odd and even), batch 1..3, 7 angles per size covering the 7.5-degree grid 0..180 + full grid for 4 sizes + random subsets + default theta; random/smooth/delta images non-zero on the rim; pre-masked and unmasked", klass=klass_radon),
+    Bounded.from_rt("iradon_torch == skimage.iradon", rt_iradon, fam_iradon,
+                    "N=3..33 and 45,47,63,65; six filters; 5 oblique angles; batch 1..3; default theta; circle=False for odd N; theta mismatch", klass=klass_iradon),
+    Bounded.from_rt("get_fourier_filter_torch == skimage._get_fourier_filter", rt_filter, fam_filter,
+                    "even sizes 2..20, 32..512, six filters; odd sizes and unknown names must raise", klass=klass_filter),
+    Bounded.from_rt("0-degree projection == masked column sums", rt_zero_degree, fam_zero, "N=3..33, batch 2", klass=klass_radon),
+    Bounded.from_rt("batched == per-image", rt_batched, fam_batched, "both transforms, N in {3,4,5,8,9,16,17,32,33}, batch 2..3, all filters", klass=lambda i, r: f"{i['which']} N={i['N']}"),
+    Bounded.from_rt("linearity", rt_linear, fam_linear, "both transforms, N in {3,4,5,8,9,16,17,32,33}", klass=lambda i, r: f"{i['which']} N={i['N']}"),
+    Bounded.from_rt("spec-conformance: contract geometry == matrix passed to skimage warp", rt_spec_conformance, fam_conformance, "6 sizes x 5 angles"),
+    Bounded.from_rt("library-model conformance", rt_models, lambda: [dict()], "fftfreq/fftshift/windows/linspace/2**ceil(log2)/arange/grid_sample on small inputs"),
+]
+
+TRUSTED = [
+    "scikit-image 0.26 (skimage.transform.radon / iradon / _get_fourier_filter) is the reference; its source is read (filter) or its calls are observed (warp matrix), never re-implemented",
+    "A5: torch.fft.fft/ifft and scipy.fft.fft are functions of their input (equal inputs give equal outputs) and linear; their values are uninterpreted",
+    "A6 models in pyvc/lib/c07_models.py: arange/linspace/zeros/cat/stack/meshgrid/matmul/gather/pad/clamp/floor/view/expand/squeeze/transpose/slice assignment; "
+    "grid_sample(mode='bilinear', padding_mode='zeros', align_corners=True) = bilinear interpolation with zeros outside at x=(g+1)/2*(W-1); "
+    "fftfreq, fftshift (out[i]=in[(i-n//2) mod n]), hamming/hann windows 0.54-0.46cos(2 pi k/(n-1)) / 0.5-0.5cos(...); 2**ceil(log2 x) = smallest power of two >= x (1<=x<=2^31); "
+    "C-order flatten followed by view to the original shape is the identity (each checked numerically against the real library by the bounded check `library-model conformance`)",
+    "A4: cos^2+sin^2=1, cos 0=1, sin 0=0 (ground instances)",
+    "T2 Sigma re-indexing: sum_{i<N} f(i) = sum_{r<N} g(r) whenever f(i) = g(N-1-i) on [0,N); Sigma-congruence; definition of partial sums PS(0)=0, PS(k+1)=PS(k)+term(k)",
+    "skimage.transform.warp(order=1, mode='constant', cval=0) = bilinear interpolation with zeros outside (same element function as grid_sample zeros) - compared numerically by the bounded radon check only",
+    "pyvc engine (AST interpreter, loop rule, path exploration), z3, cvc5",
+]
+ASSUMPTIONS = [
+    "A1 floats are reals: float32 rounding (grid coordinates, log2, filter) is ignored in the deductive part; tolerances 1e-5*max|ref| appear only in the bounded checks",
+    "deductive scope: square images [B,N,N] with N>=2, explicit theta of symbolic length (radon_torch: theta=None iterates a concrete 180-element tensor - bounded only); "
+    "iradon_torch: output_size=None, filter_name in {ramp, unknown} (the filter is used through its contract), circle=True for the value statement - for circle=False only shape/padding/pipeline are proved",
+    "non-square inputs (crop branch of radon_torch) and device handling are outside the stated quantifier and not covered",
+    "callers in tomography_conv.py are not under contract (they pass explicit theta / filter / circle)",
+    "statements are made at one arbitrary output entry (Skolem constants b!px, y!px, x!px / b!px, a!px, j!px): this is universal quantification over the entry",
+]
+EXPLANATION = ("VCs generated from the real source of radon_torch / iradon_torch / get_fourier_filter_torch (and of scikit-image's _get_fourier_filter) "
+               "discharged by z3/cvc5; agreement with scikit-image itself is decided by the run-time contracts over the bounded families (level 'other')")
+REPLAY = {}
